@@ -1185,11 +1185,12 @@ class Interp:
         assigned = _assigned_names(st.body) | _assigned_names([ast.Assign(targets=[st.target], value=ast.Constant(None))])
         target_names = _assigned_names([ast.Assign(targets=[st.target], value=ast.Constant(None))])
         missing = (assigned - target_names) - set(spec.havoc) - {n for n in assigned if n not in fr.locals}
-        if missing:
-            raise Unsupported(f"loop invariant does not say how to havoc {sorted(missing)}")
         self._loop_check(f"{fr.qualname} loop invariant holds on entry", spec.inv(self, fr.locals, E))
         # three continuations, chosen non-deterministically: (a) exit after exhaustion, (b) one generic iteration
         which = 0 if self.branch_free() else 1
+        for name in sorted(missing):
+            fr.locals[name] = self._auto_havoc(name, fr.locals[name])
+        self._havoc_mutables(fr, spec, missing, st.body)
         for name, gen in spec.havoc.items():
             # a generator taking (I, current value) may havoc a mutable object in place (keeps aliasing intact)
             if len(inspect.signature(gen).parameters) >= 2:
@@ -1229,6 +1230,40 @@ class Interp:
                 raise Unsupported(f"loop body mutates {n}, which the invariant does not mention")
         self._loop_check(f"{fr.qualname} loop invariant preserved", spec.inv(self, fr.locals, z3.Concat(seen, z3.Unit(x))))
         raise Infeasible()       # the inductive step is a proof obligation only; execution continues on continuation (a)
+
+    def _auto_havoc(self, name, v):
+        """typed havoc of a variable the loop body assigns and the contract does not mention by name: mutable abstract
+        containers are havocked in place (aliasing survives), booleans / integers get a fresh value of their type"""
+        if hasattr(v, "havoc_inplace"):
+            v.havoc_inplace(self)
+            return v
+        if isinstance(v, (bool, SBool)):
+            return SBool(self.fresh(f"havoc_{name}", z3.BoolSort()))
+        if isinstance(v, (int, SInt)):
+            return SInt(self.fresh(f"havoc_{name}", z3.IntSort()))
+        raise Unsupported(f"loop invariant does not say how to havoc {name!r}")
+
+    def _havoc_mutables(self, fr, spec, already, body):
+        """abstract containers that the body may mutate in place (a method call on, or a subscript store / delete through, a
+        local name -- no assignment to see) are havocked too, by object identity (so an alias of such a container is covered;
+        a container the body only reads, e.g. an argument it compares with, keeps its value)"""
+        touched = set()
+        for st in body:
+            for n in ast.walk(st):
+                if isinstance(n, ast.Call) and isinstance(n.func, ast.Attribute) and isinstance(n.func.value, ast.Name):
+                    touched.add(n.func.value.id)
+                elif isinstance(n, ast.Subscript) and isinstance(n.ctx, (ast.Store, ast.Del)) and isinstance(n.value, ast.Name):
+                    touched.add(n.value.id)
+                elif isinstance(n, ast.AugAssign) and isinstance(n.target, ast.Name):
+                    touched.add(n.target.id)
+        done = set()
+        for name in sorted(touched):
+            v = fr.locals.get(name)
+            if v is None or name in spec.havoc or name in already or id(v) in done:
+                continue
+            if hasattr(v, "havoc_inplace"):
+                v.havoc_inplace(self)
+                done.add(id(v))
 
     def _loop_check(self, what, cond):
         if cond is True:
@@ -1406,9 +1441,10 @@ class Interp:
             raise Unsupported("while/else with an invariant")
         assigned = _assigned_names(st.body)
         missing = assigned - set(spec.havoc) - {n for n in assigned if n not in fr.locals}
-        if missing:
-            raise Unsupported(f"loop invariant does not say how to havoc {sorted(missing)}")
         self._loop_check(f"{fr.qualname} loop invariant holds on entry", spec.inv(self, fr.locals, None))
+        for name in sorted(missing):
+            fr.locals[name] = self._auto_havoc(name, fr.locals[name])
+        self._havoc_mutables(fr, spec, missing, st.body)
         for name, gen in spec.havoc.items():
             if len(inspect.signature(gen).parameters) >= 2:
                 fr.locals[name] = gen(self, fr.locals.get(name))
